@@ -126,6 +126,31 @@ SEEDS = [
   {'C15': 'VIOLATION crypto::ed25519::PublicKey::verify_signature::ensures.strict'}),
  ('C15-4', '/scratch/t/r4/C15-2', 'C15', 'UnverifiedBiscuit::append_third_party reuses the current proof key as the next key',
   {'C15': 'VIOLATION token::unverified::UnverifiedBiscuit::append_third_party::ensures.fresh_key (the RNG-sourced next key clause added in this phase)'}),
+ # ---- round 5 (sub-agents asked to avoid the obvious candidates; against HEAD cb1e0aa, confirmed on 7c6e353) ----
+ ('C02-5', '/scratch/t/r5/C02-1', 'C02', 'sealing right after a third-party block (seal payload built with the v0 block payload helper)',
+  {'C02': 'VIOLATION crypto::generate_seal_signature_payload_v0::ensures.layout'}),
+ ('C02-6', '/scratch/t/r5/C02-2', 'C02', 'an unsealed token whose LAST block is third-party with a next key of another algorithm than the previous first-party one (algorithm tracking skipped by an early `continue`)',
+  {'C02': 'UNDECIDED (exit 2): the restructured loop uses `continue`, which this Verus does not accept in for-loops', 'C01': 'UNDECIDED (same unit)'}),
+ ('C07-5', '/scratch/t/r5/C07-1', 'C07', 'two third-party blocks by one signer plus another key named in a scope afterwards (key id taken from current_offset() before insert)',
+  {'C07': 'VIOLATION token::builder::authorizer::AuthorizerBuilder::build_inner (key index assertion of the key-map step)', 'history': 'first UNDECIDED (PublicKeys::current_offset had no contract in unit loadb); the one-line accessor was put under contract'}),
+ ('C07-6', '/scratch/t/r5/C07-2', 'C07', 'a third-party block with a non-empty key table, a later first-party block naming keys, and a wire round trip (third-party keys added to the token table at parse time)',
+  {'C07': 'VIOLATION format::SerializedBiscuit::extract_blocks::loop1.tables', 'C12': 'same obligations'}),
+ ('C16-5', '/scratch/t/r5/C16-1', 'C16', 'old-scheme authority, then a block needing the chained scheme, then a plain block added with Biscuit::append (max() -> last())',
+  {'C16': 'VIOLATION format::block_signature_version::ensures.otherwise'}),
+ ('C16-6', '/scratch/t/r5/C16-2', 'C16', 'a block declaring version 3 with 3.3-only content (the 3.3 arm under `version < 3.1` removed as a duplicate)',
+  {'C16': 'VIOLATION datalog::SchemaVersion::check_compatibility::ensures.minimal, with witness'}),
+ ('C06-5', '/scratch/t/r5/C06-1', 'C06', 'i64::MIN / -1',
+  {'C06': 'VIOLATION datalog::expression::Binary::evaluate::ensures.div_overflow and ::call-pre[i / j]'}),
+ ('C06-6', '/scratch/t/r5/C06-2', 'C06', 'a shadowing closure parameter over an EMPTY collection (shadowing test moved into a new helper bind_param called per element)',
+  {'C06': 'UNDECIDED (exit 2): same refactoring as C06-2 of round 1, from another sub-agent: the new helper function has no contract in the unit'}),
+ ('C12-5', '/scratch/t/r5/C12-1', 'C12', 'an UnverifiedBiscuit append of a block with a `trusting <key>` scope (public-key merge removed, only strings merged)',
+  {'C12': 'VIOLATION token::unverified::UnverifiedBiscuit::append_with_keypair (proof of the table invariant)'}),
+ ('C12-6', '/scratch/t/r5/C12-2', 'C12', 'a first-party block that declares keys but no new string, after a round trip (merge skipped when the block has no symbols)',
+  {'C12': 'VIOLATION format::SerializedBiscuit::extract_blocks (key-table lemma precondition)'}),
+ ('C08-5', '/scratch/t/r5/C08-1', 'C08', 'third_party_request on a sealed token through UnverifiedBiscuit (sealed check moved to the verified caller only)',
+  {'C08': 'VIOLATION token::third_party::ThirdPartyRequest::from_container::ensures.sealed'}),
+ ('C08-6', '/scratch/t/r5/C08-2', 'C08', 'a sealed token with all blocks removed (seal verification folded into a peekable block loop that never runs)',
+  {'C08': 'UNDECIDED (exit 2): the for loop the invariants are attached to became a `while let` over a peekable iterator (lost anchor)'}),
 ]
 only = sys.argv[1:] 
 for sid, src, prop, needs, det in SEEDS:
